@@ -9,6 +9,7 @@ import (
 	"go/constant"
 	"go/token"
 	"go/types"
+	"reflect"
 	"sort"
 	"strings"
 
@@ -155,23 +156,58 @@ func (c *Ctx) SNBTLiteralWidths() []core.Ob {
 // the same expressions as the constructor, on the zero and non-zero branches.
 func (c *Ctx) BitStorageFixSibling() []core.Ob {
 	o := core.Ob{Rule: "T-BSFIX", Key: "Fix=NewBitStorage:derived-fields", Armed: true, Status: core.OK,
-		Want: "Fix sets mask, bits and valuesPerLong to the values NewBitStorage derives from the same bits, for 0 bits (all zero) and otherwise (1<<bits-1, bits, 64/bits)"}
+		Want: "Fix sets every field that NewBitStorage derives from the number of bits (the mask (1<<bits)-1, the width, the values per long 64/bits) to the same expression of its own bits argument, and to zero for 0 bits"}
 	nb, fx := c.Fn("level.NewBitStorage"), c.Fn("level.(*BitStorage).Fix")
-	if nb == nil || fx == nil {
+	if nb == nil || fx == nil || len(fx.Params) < 2 {
 		o.Status, o.Got = core.Violated, "functions not found"
 		return []core.Ob{o}
 	}
 	o.Pos, o.Func = c.P.Pos(fx.Pos()), core.FnName(fx)
-	collect := func(fn *ssa.Function, bitsParam ssa.Value) (zero, nonzero map[string]string) {
+	// expressions over the bits argument ("B"); other parameters are "P"
+	var render func(v ssa.Value, bits ssa.Value, d int) string
+	render = func(v ssa.Value, bits ssa.Value, d int) string {
+		if d > 10 {
+			return "?"
+		}
+		if v == bits {
+			return "B"
+		}
+		switch x := v.(type) {
+		case *ssa.Const:
+			if n, ok := constInt(x); ok {
+				return n.String()
+			}
+			return "const"
+		case *ssa.Convert:
+			return render(x.X, bits, d+1)
+		case *ssa.ChangeType:
+			return render(x.X, bits, d+1)
+		case *ssa.Parameter:
+			return "P"
+		case *ssa.BinOp:
+			return "(" + render(x.X, bits, d+1) + x.Op.String() + render(x.Y, bits, d+1) + ")"
+		}
+		return "?"
+	}
+	isBS := func(t types.Type) bool {
+		n, ok := types.Unalias(deref(t)).(*types.Named)
+		return ok && n.Obj().Name() == "BitStorage" && n.Obj().Pkg() != nil && core.Rel(n.Obj().Pkg().Path()) == "level"
+	}
+	// collect: field -> expression, for bits == 0 and for bits != 0, following helpers of the package that
+	// are handed the bits value (a shared configure(bits) makes the two siblings agree by construction)
+	var collect func(fn *ssa.Function, bits ssa.Value, depth int) (zero, nonzero map[string]string)
+	collect = func(fn *ssa.Function, bits ssa.Value, depth int) (zero, nonzero map[string]string) {
 		zero, nonzero = map[string]string{}, map[string]string{}
-		// the branch on bits == 0
+		if depth > 3 || len(fn.Blocks) == 0 {
+			return
+		}
 		var zb, nzb *ssa.BasicBlock
 		for _, b := range fn.Blocks {
 			if len(b.Instrs) == 0 {
 				continue
 			}
 			if iff, ok := b.Instrs[len(b.Instrs)-1].(*ssa.If); ok {
-				if cmp, ok := iff.Cond.(*ssa.BinOp); ok && cmp.X == bitsParam {
+				if cmp, ok := iff.Cond.(*ssa.BinOp); ok && cmp.X == bits {
 					if k, ok := constIntVal(cmp.Y); ok && k == 0 && (cmp.Op == token.EQL || cmp.Op == token.NEQ) && zb == nil {
 						zb, nzb = b.Succs[0], b.Succs[1]
 						if cmp.Op == token.NEQ {
@@ -181,69 +217,119 @@ func (c *Ctx) BitStorageFixSibling() []core.Ob {
 				}
 			}
 		}
-		if zb == nil {
-			return
-		}
 		for _, b := range fn.Blocks {
-			var dst map[string]string
+			var dsts []map[string]string
 			switch {
-			case b == zb || (len(zb.Preds) == 1 && zb.Dominates(b)):
-				dst = zero
-			case b == nzb || (len(nzb.Preds) == 1 && nzb.Dominates(b)):
-				dst = nonzero
+			case zb != nil && (b == zb || (len(zb.Preds) == 1 && zb.Dominates(b))):
+				dsts = []map[string]string{zero}
+			case nzb != nil && (b == nzb || (len(nzb.Preds) == 1 && nzb.Dominates(b))):
+				dsts = []map[string]string{nonzero}
+			case zb != nil && len(zb.Preds) == 1 && len(nzb.Preds) != 1:
+				// "if bits == 0 { ...; return }; rest": the rest runs only for bits != 0 when the zero branch leaves
+				if leavesFunc(zb) && nzb.Dominates(b) {
+					dsts = []map[string]string{nonzero}
+				} else {
+					dsts = []map[string]string{zero, nonzero}
+				}
 			default:
-				continue
+				dsts = []map[string]string{zero, nonzero}
 			}
 			for _, in := range b.Instrs {
-				st, ok := in.(*ssa.Store)
-				if !ok {
-					continue
-				}
-				fa, ok := st.Addr.(*ssa.FieldAddr)
-				if !ok {
-					continue
-				}
-				stt, ok := deref(fa.X.Type()).Underlying().(*types.Struct)
-				if !ok {
-					continue
-				}
-				f := stt.Field(fa.Field).Name()
-				if f == "mask" || f == "bits" || f == "valuesPerLong" {
-					dst[f] = renderExpr(st.Val, 0)
+				switch x := in.(type) {
+				case *ssa.Store:
+					fa, ok := x.Addr.(*ssa.FieldAddr)
+					if !ok || !isBS(fa.X.Type()) {
+						continue
+					}
+					stt := deref(fa.X.Type()).Underlying().(*types.Struct)
+					for _, d := range dsts {
+						d[stt.Field(fa.Field).Name()] = render(x.Val, bits, 0)
+					}
+				case *ssa.Call:
+					sc := x.Common().StaticCallee()
+					if sc == nil || !inPkgs(sc, "level") || core.Origin(sc) == fn {
+						continue
+					}
+					for i, a := range x.Common().Args {
+						if a == bits && i < len(sc.Params) {
+							gz, gnz := collect(core.Origin(sc), sc.Params[i], depth+1)
+							for _, d := range dsts {
+								src := gnz
+								if isSameMap(d, zero) {
+									src = gz
+								}
+								for k, v := range src {
+									d[k] = v
+								}
+							}
+						}
+					}
 				}
 			}
 		}
 		return
 	}
-	nz, nn := collect(nb, ssa.Value(nb.Params[0]))
-	fz, fn2 := collect(fx, ssa.Value(fx.Params[1]))
-	render := func(m map[string]string) string {
+	nz, nn := collect(nb, ssa.Value(nb.Params[0]), 0)
+	fz, fn2 := collect(fx, ssa.Value(fx.Params[1]), 0)
+	show := func(m map[string]string, keys []string) string {
 		var ks []string
-		for k, v := range m {
-			ks = append(ks, k+"="+v)
+		for _, k := range keys {
+			ks = append(ks, k+"="+m[k])
 		}
-		sort.Strings(ks)
 		return strings.Join(ks, " ")
 	}
-	// a zero-valued field of a composite literal is not stored explicitly by go/ssa when it equals the zero value;
-	// NewBitStorage's zero branch may therefore list nothing: compare Fix's zero branch with explicit zeros
-	wantZero := "bits=0 mask=0 valuesPerLong=0"
-	if len(nz) > 0 && render(nz) != wantZero {
-		o.Status, o.Got = core.Violated, "NewBitStorage zero branch: "+render(nz)
+	// the fields derived from the bits argument: those whose constructor value mentions it
+	var derived []string
+	for f, e := range nn {
+		if strings.Contains(e, "B") && !strings.Contains(e, "?") {
+			derived = append(derived, f)
+		}
 	}
-	if render(fz) != wantZero {
-		o.Status, o.Got = core.Violated, "Fix with 0 bits sets {"+render(fz)+"}, want {"+wantZero+"}: a storage reused for a single-valued section keeps a stale width"
+	sort.Strings(derived)
+	if len(derived) < 3 {
+		o.Status, o.Got = core.Violated, fmt.Sprintf("only %d fields derived from the bits argument recognised in NewBitStorage {%s}", len(derived), show(nn, derived))
+		return []core.Ob{o}
 	}
-	if render(nn) != render(fn2) || len(nn) != 3 {
-		o.Status, o.Got = core.Violated, "non-zero branch differs: NewBitStorage {"+render(nn)+"} vs Fix {"+render(fn2)+"}"
+	for _, f := range derived {
+		if fn2[f] != nn[f] {
+			o.Status, o.Got = core.Violated, "for bits != 0: NewBitStorage {"+show(nn, derived)+"} vs Fix {"+show(fn2, derived)+"}"
+		}
+		// for 0 bits every derived field is zero (a stored B is the bits argument itself, 0 on this branch);
+		// go/ssa omits zero-valued fields of a composite literal, so the constructor may list nothing
+		if v, ok := nz[f]; ok && v != "0" && v != "B" {
+			o.Status, o.Got = core.Violated, "NewBitStorage with 0 bits sets "+f+"="+v
+		}
+		if v := fz[f]; v != "0" && v != "B" {
+			o.Status, o.Got = core.Violated, "Fix with 0 bits sets {"+show(fz, derived)+"}, want all zero: a storage reused for a single-valued section keeps a stale width"
+		}
 	}
 	if o.Status == core.OK {
-		o.Got = render(fn2)
+		o.Got = show(fn2, derived)
 	}
 	return []core.Ob{o}
 }
 
-// ----------------------------------------------------------- RCON request id
+func isSameMap(a, b map[string]string) bool {
+	return reflect.ValueOf(a).Pointer() == reflect.ValueOf(b).Pointer()
+}
+
+// leavesFunc: the block ends the function (return or panic) without branching.
+func leavesFunc(b *ssa.BasicBlock) bool {
+	for i := 0; i < 8; i++ {
+		if len(b.Instrs) == 0 {
+			return false
+		}
+		switch b.Instrs[len(b.Instrs)-1].(type) {
+		case *ssa.Return, *ssa.Panic:
+			return true
+		case *ssa.Jump:
+			b = b.Succs[0]
+		default:
+			return false
+		}
+	}
+	return false
+}
 
 // RCONReqID: AcceptLogin and AcceptCmd record the id of the packet they just
 // read; RespCmd and Cmd send under the recorded id.
